@@ -79,6 +79,7 @@ def run(chk: Check, proj: Project) -> None:
     s3b_live_iteration(chk, proj, w)
     s3c_queue_items_immutable(chk, proj, w)
     s3d_annotation(chk, proj, w)
+    s3e_user_code_under_path(chk, proj, w)
     chk.call_sites = w.cg.n_calls
 
 
@@ -705,6 +706,40 @@ def lost_default_updates(f: ast.AST) -> List[Tuple[ast.AST, ast.AST]]:
             if not stored and not any(r.lineno < mu.lineno for r in redefined):
                 out.append((st, mu))
     return out
+
+
+def s3e_user_code_under_path(chk: Check, proj: Project, w) -> None:
+    chk.rule("S3e", "every call in the tree loop that runs user code (a component's deferred renderer; the per-component callback that runs on_render_after) is made inside `with component_error_message(<path of that component>)`, so the exception reaches the caller annotated with the whole component path, not with the root alone")
+    pm, pf = proj.func("perfutil.component", "component_post_render")
+    tree = None
+    for c in calls(pf):
+        tg = w.cg.resolve_callee(pm, c, c.func)
+        if tg is not None and isinstance(tg[1], ast.FunctionDef) and any(isinstance(x, ast.While) for x in ast.walk(tg[1])):
+            tree = tg
+    m, f = tree if tree is not None else (pm, pf)
+    chk.analysed(fkey(m, f))
+    loop = next((x for x in ast.walk(f) if isinstance(x, ast.While)), None)
+    if loop is None:
+        raise AnalysisError("queue loop not found")
+    # callables that come out of the per-render tables: values read from the renderer cache / the callbacks dict
+    cb_param = next((p_ for p_ in params(f) if "callback" in p_), None)
+    user_vars: Set[str] = set()
+    for st in ast.walk(loop):
+        if isinstance(st, ast.Assign):
+            src = norm(st.value)
+            if "component_renderer_cache" in src or (cb_param and src.startswith(cb_param + "[")):
+                for t in st.targets:
+                    for x in ast.walk(t):
+                        if isinstance(x, ast.Name):
+                            user_vars.add(x.id)
+    n = 0
+    for c in [x for x in ast.walk(loop) if isinstance(x, ast.Call) and isinstance(x.func, ast.Name) and x.func.id in user_vars]:
+        n += 1
+        under = any(isinstance(a, ast.With) and any(isinstance(it.context_expr, ast.Call) and last_attr(it.context_expr.func) == "component_error_message" for it in a.items) for a in ancestors(c))
+        chk.ob("S3e", f"perfutil.component:{f.name}:{short(c, 50)}-under-component-path", m.loc(c), under,
+               f"`{short(c, 50)}` runs inside `with component_error_message(...)`" if under else
+               f"`{short(enclosing_stmt(c), 70)}` runs user code (on_render_after) outside `component_error_message`: an exception from the hook of a NESTED component is reported as 'An error occured while rendering components <root>' - the path to the component that raised is lost")
+    chk.floor("S3e", n, 2)
 
 
 def s3d_annotation(chk: Check, proj: Project, w) -> None:
